@@ -29,8 +29,8 @@ STATES = {
 }
 SENDING = ('send/route-refresh', 'send/update', 'send/bin_update')
 GATED = SENDING + ('json_to_bin', 'adj-rib-in', 'adj-rib-out')
-STATE_WORDS = ('IDLE', 'CONNECT', 'ACTIVE', 'OPENSENT', 'OPENCONFIRM', 'ESTABLISHED', 'remote_as', 'local_as',
-               'Keepalives', 'capability', '"status"', '"version"', '"bin"', '"data"')
+STATE_WORDS = ('IDLE', 'CONNECT', 'ACTIVE', 'OPENSENT', 'OPENCONFIRM', 'ESTABLISHED', 'remote_as', 'local_as', 'remote_addr',
+               'Keepalives', 'Notifications', 'capability', 'four_bytes_as', 'uptime')
 UPD = simple_update(65001)
 
 
